@@ -5,6 +5,7 @@
 -/
 import Model.DtRegex
 import Lemmas.DtRegex
+import Lemmas.DtRegexSpec
 import Generated.ProxyTable
 
 namespace DI.C19
@@ -54,5 +55,56 @@ theorem proxies_call_module_functions :
       (r.1 = "ReProxy" → r.2.2.1 = "regex." ++ r.2.1 ∧ r.2.2.2 = "partial-string-kw") ∧
       (r.1 = "StrProxy" → r.2.2.1 = "'" ++ r.2.1 ++ "'" ∧ r.2.2.2 = "np.strings-partial-first") := by
   decide
+
+/-! ## round 3: positional statements -/
+
+/-- the lifting combinator, generically: mapping under `Option` gives a vector of the same length
+    with a missing value at position `i` iff the input has one at position `i`. -/
+theorem lifting_preserves_missing {δ β : Type} (f : δ → β) (xs : List (Option δ)) :
+    SameMissing (xs.map (fun x => x.map f)) xs := sameMissing_map f xs
+
+/-- instantiated for everything built on `_pull_datetime` / `_pull_int` / `_pull_str` (the extractors,
+    `to_string`, scalar `replace`, `from_string`): output position `i` is missing iff input position
+    `i` is NaT; lengths are equal — the mask assignment `out[~na] = f(x[~na])` does not shift values. -/
+theorem pull_missing_iff_nat {δ β : Type} (f : δ → β) (xs : List (Option δ)) :
+    SameMissing (pull f xs) xs := pull_sameMissing f xs
+
+/-- … for `replace`, with scalar and with vector components … -/
+theorem replace_missing_iff_nat {δ γ : Type} [Inhabited γ] (repl : δ → List (String × γ) → δ)
+    (xs : List (Option δ)) (comps : List (String × Comp γ)) : SameMissing (replace repl xs comps) xs :=
+  replace_sameMissing repl xs comps
+
+/-- … and for the regex functions (position `i` holds the default iff string `i` is missing). -/
+theorem regex_missing_iff_missing {β : Type} (f : String → β) (xs : List (Option String)) :
+    SameMissing (regexMap f xs) xs := regexMap_sameMissing f xs
+
+/-- `match` / `fullmatch` / `search` return `None` for "no match", which in the object vector is the
+    missing value itself: seen from Python, position `i` is missing iff string `i` is missing OR the
+    pattern does not match it. -/
+theorem regex_no_match_reads_as_missing {μ : Type} (f : String → Option μ) (xs : List (Option String)) (i : Nat)
+    (h : i < xs.length) :
+    ((regexMap f xs)[i]'(by simpa [regexMap] using h)).join = none ↔
+      xs[i] = none ∨ ∃ s, xs[i] = some s ∧ f s = none := regexMap_join_none_iff f xs i h
+
+/-- `replace` with vector components: element `i` uses, for every vector component, the value at
+    position `i` of that vector (`kwargs[key][i]` with `i` from `flatnonzero(~na)`) — the position in
+    the whole vector, NOT the rank among the non-missing elements; scalars are used as they are. -/
+theorem replace_vector_components_positionwise {δ γ : Type} [Inhabited γ] (repl : δ → List (String × γ) → δ)
+    (xs : List (Option δ)) (comps : List (String × Comp γ)) (i : Nat) (h : i < xs.length) :
+    (replace repl xs comps)[i]? =
+      some (xs[i].map (fun y => repl y (comps.map (fun c => (c.1, c.2.at i))))) ∧
+    (∀ (vs : List γ) (hv : i < vs.length), (Comp.vector vs).at i = vs[i]) ∧
+    (∀ v : γ, (Comp.scalar v).at i = v) := replace_positionwise repl xs comps i h
+
+/-- `from_string(to_string(x, fmt), fmt)` for any format pair that round-trips on single values:
+    every non-missing element parses (`some`: no `ValueError`) to itself, missing stays missing. -/
+theorem from_string_inverts_to_string {δ : Type} (fmt : δ → String) (parse : String → Option δ)
+    (h : ∀ x, parse (fmt x) = some x) (xs : List (Option δ)) :
+    pull parse (pull fmt xs) = xs.map (fun x => x.map some) := pull_parse_pull_fmt fmt parse h xs
+
+/-- the same with the parse result flattened: the vector comes back unchanged. -/
+theorem from_string_to_string_roundtrip {δ : Type} (fmt : δ → String) (parse : String → Option δ)
+    (h : ∀ x, parse (fmt x) = some x) (xs : List (Option δ)) :
+    (pull parse (pull fmt xs)).map Option.join = xs := pull_parse_pull_fmt_join fmt parse h xs
 
 end DI.C19
